@@ -1275,6 +1275,10 @@ def risk(stmt, ds=None):
             walk_query(q.body)
             return
         if isinstance(q, SetOp):
+            if q.paren:
+                for b in q.branches[1:]:
+                    add("setop.paren_later_branches", b.reads(ds))
+                add("setop.paren_first_branch", q.branches[0].reads(ds))
             for b in q.branches:
                 walk_query(b)
             return
